@@ -775,11 +775,64 @@ func evalUpdateExpression(node *UpdateExpression, env *Environment) Object {
 	return UNDEFINED
 }
 
+// copyObject returns a deep copy of the object, so that an assigned value
+// shares no state with the attribute (or function result) it was read from.
+func copyObject(obj Object) Object {
+	switch o := obj.(type) {
+	case *Number:
+		return &Number{Value: o.Value}
+	case *String:
+		return &String{Value: o.Value}
+	case *Binary:
+		return &Binary{Value: append([]byte{}, o.Value...)}
+	case *Map:
+		m := make(map[string]Object, len(o.Value))
+		for k, v := range o.Value {
+			m[k] = copyObject(v)
+		}
+
+		return &Map{Value: m}
+	case *List:
+		l := make([]Object, len(o.Value))
+		for i, v := range o.Value {
+			l[i] = copyObject(v)
+		}
+
+		return &List{Value: l}
+	case *StringSet:
+		ss := make(map[string]bool, len(o.Value))
+		for k, v := range o.Value {
+			ss[k] = v
+		}
+
+		return &StringSet{Value: ss}
+	case *NumberSet:
+		ns := make(map[float64]bool, len(o.Value))
+		for k, v := range o.Value {
+			ns[k] = v
+		}
+
+		return &NumberSet{Value: ns}
+	case *BinarySet:
+		bs := make([][]byte, len(o.Value))
+		for i, v := range o.Value {
+			bs[i] = append([]byte{}, v...)
+		}
+
+		return &BinarySet{Value: bs}
+	}
+
+	return obj
+}
+
 func evalActionSet(node *ActionExpression, env *Environment) Object {
 	val := EvalUpdate(node.Right, env)
 	if isError(val) {
 		return val
 	}
+
+	// the right-hand side may be (or contain) an object that lives in the item
+	val = copyObject(val)
 
 	id, ok := node.Left.(*Identifier)
 	if ok {
